@@ -149,7 +149,7 @@ def build_harness(ctx, pkg):
     if rc != 0:
         ctx.tie_broken = f"harness package {pkg} no longer builds against /repo:\n" + out[-3000:]
         return None
-    return os.path.join(HARNESS, "target", "debug", pkg)
+    return os.path.join(os.environ.get("CARGO_TARGET_DIR", os.path.join(HARNESS, "target")), "debug", pkg)
 
 
 # -------------------------------------------------------------------- step 3: proofs
@@ -406,6 +406,25 @@ def decide(ctx, problems, harness_bin=None, driver_bin=None, env=None):
             ctx.violation({"kind": "correspondence+oracle", "what": "model and implementation disagree and the oracle fails on the implementation's output",
                            "request": req, "impl": impl, "model": model, "verdict": verdict})
             reported += 1
+    # disagreement but the oracle passes: focused search around the disagreeing cases
+    focus = getattr(ctx.prop, "focus", None)
+    if disagreements and reported == 0 and not new_oracle and focus and harness_bin and driver_bin:
+        tried = 0
+        for kind, req, impl, model, verdict in disagreements[:8]:
+            variants = focus(req)
+            if not variants:
+                continue
+            res = run_pipeline(harness_bin, driver_bin, variants, env)
+            tried += len(res)
+            bad = [r for r in res if r[3] != "ok" and not any(
+                (r[3][4:] if r[3].startswith("bad:") else r[3]) == k["signature"] for k in known)]
+            if bad:
+                r = bad[0]
+                ctx.violation({"kind": "correspondence+focused-search", "what": "model and implementation disagree on `disagreeing_request`; a focused search around it found an input on which the property's oracle fails on the implementation's output",
+                               "disagreeing_request": req, "request": r[0], "impl": r[1], "model": r[2], "verdict": r[3]})
+                reported += 1
+                break
+        ctx.cov["oracle"]["focused_search_cases"] = tried
     if disagreements and reported == 0 and not new_oracle:
         kind, req, impl, model, verdict = disagreements[0]
         ctx.violation({"kind": "correspondence", "what": "model and implementation disagree; the oracle passes on every explored input, so the property is no longer shown to hold",
